@@ -170,6 +170,10 @@ def kernel_wrappers_call_sites(ctx, which):
     ctx.claim("interpreter_saw_no_cross_cell_hazard", len(load.HAZARDS) == 0)
 
 
+# heavy scenarios: a data-dependent branch introduced into the step forks them; keep the exploration bound small
+flow_step_call_sites.max_paths = 4
+
+
 def schedule(chk):
     from checks.c01 import configs
 
